@@ -393,7 +393,20 @@ func TestDeterminism(t *testing.T) {
 	rapid.Check(t, func(rt *rapid.T) {
 		s := def.Gen(rt, false)
 		res := RunScript(t, s, def.Oracles(), true)
-		hb, _ := json.Marshal(res.History)
+		// the scheduler's status updater (pod conditions, pod group status) sends through an asynchronous worker that
+		// coalesces updates depending on real timing; no oracle reads that traffic and no fault targets it, so it is left
+		// out of the history hash (residual nondeterminism, DESIGN.md 3.4)
+		var hist []Call
+		for _, c := range res.History {
+			if c.Actor == "scheduler" && (c.Sub == "status" || c.Resource == "podgroups" || c.Resource == "events") {
+				continue
+			}
+			hist = append(hist, c)
+		}
+		for i := range hist {
+			hist[i].Seq = i
+		}
+		hb, _ := json.Marshal(hist)
 		db, _ := json.Marshal(res.Decisions)
 		fmt.Printf("DET %s %d %s %s %s\n", prop, i, res.StateHash, hashStrings([]string{string(hb)}), hashStrings([]string{string(db)}))
 		if dd := os.Getenv("KAISIM_DET_DUMP"); dd != "" {
